@@ -33,7 +33,7 @@ def named_fn(arg, f, hook=None, tag=None):
 
 
 GRAPHS = ["lin_s", "lin_d_s", "gmrf_d_s", "lmrf_d", "two_lik", "nonlin", "xz_s", "laplace_b", "mean_m", "cmrf_d",
-          "lognormal", "lognormal_cov_s", "lin_sqrtprecF", "reg_d", "lin_geom", "sigdep_x", "direct_param", "cov_sd", "selfnamed", "cov_sdt", "lin_step", "kl_nonlin", "gamma_mv", "heat_pde", "userdef_x", "mapped_x"]   # ("reg_s" is buildable but RegularizedGaussian has no log-density: not a C01/C11 graph)
+          "lognormal", "lognormal_cov_s", "lin_sqrtprecF", "reg_d", "lin_geom", "sigdep_x", "direct_param", "cov_sd", "selfnamed", "cov_sdt", "lin_step", "kl_nonlin", "gamma_mv", "heat_pde", "userdef_x", "mapped_x", "mrf2d"]   # ("reg_s" is buildable but RegularizedGaussian has no log-density: not a C01/C11 graph)
 
 
 def _lg(r, cov):
@@ -261,6 +261,34 @@ def build(rec, hook=None):
         if form != "cuqi_fun":
             out["closed_form"] = lambda v: (_lg(v["y"] - A @ np.exp(np.asarray(v["x"], float)), 0.3)
                                             + _lg(np.asarray(v["x"], float), 1 / v["d"]) + _lgam(v["d"], 2.0, 1.0))
+    elif g == "mrf2d":
+        # a 3x3 image: GMRF or LMRF prior with physical dimension 2 on an Image2D geometry, image-aware linear model
+        from cuqi.geometry import Image2D
+        k_ = 3
+        A9 = rs.randn(m, k_ * k_)
+        d = Gamma(1.0, 0.1, name="d")
+        kind2 = rec.get("mrf", "gmrf")
+        if kind2 == "gmrf":
+            x = GMRF(np.zeros(k_ * k_), prec=idt("d", "x.prec"), geometry=Image2D((k_, k_)), name="x")
+        else:
+            x = LMRF(0, scale=inv("d", "x.scale"), geometry=Image2D((k_, k_)), name="x")
+        M = LinearModel(lambda x: A9 @ np.ravel(x), lambda y: (A9.T @ y).reshape(k_, k_), range_geometry=m,
+                        domain_geometry=Image2D((k_, k_)))
+        y = Gaussian(M(x), 0.3, name="y")
+        dens = [y, x, d]
+        vals = {"y": ydata, "x": rs.randn(k_ * k_) * 0.7, "d": pos()}
+        out["models"]["A"] = M
+        D1 = np.zeros((k_ + 1, k_))
+        for i_ in range(k_):
+            D1[i_, i_], D1[i_ + 1, i_] = 1.0, -1.0
+        D2 = np.vstack([np.kron(np.eye(k_), D1), np.kron(D1, np.eye(k_))])
+        if kind2 == "gmrf":
+            P2 = D2.T @ D2
+            ld2 = float(np.linalg.slogdet(P2)[1])
+            pri2 = lambda v: 0.5 * (k_ * k_ * (np.log(v["d"]) - np.log(2 * np.pi)) + ld2) - 0.5 * v["d"] * float(v["x"] @ P2 @ v["x"])
+        else:
+            pri2 = lambda v: D2.shape[0] * (-(np.log(2) + np.log(1 / v["d"]))) - float(np.sum(np.abs(D2 @ v["x"]))) * v["d"]
+        out["closed_form"] = lambda v: _lg(v["y"] - A9 @ np.asarray(v["x"], float), 0.3) + pri2(v) + _lgam(v["d"], 1.0, 0.1)
     elif g == "cov_sd":
         # one callable with TWO hyper-parameter arguments, which may be fixed in separate steps (functools.partial path)
         s = Gamma(1.0, 0.1, name="s")
